@@ -807,6 +807,31 @@ def m_iter_for_each(interp, fn, args, st, site, frame):
     return out
 
 
+def m_iter_fold(interp, fn, args, st, site, frame):
+    """<concrete iterator>.fold(init, closure): acc = closure(acc, item) for every item, in order"""
+    if len(args) != 3 or not (isinstance(args[0], Adt) and args[0].name.startswith("it:")):
+        return None
+    try:
+        runs = _drain(interp, args[0], st, site)
+    except ValueError:
+        return None
+    out = []
+    for (items, st2) in runs:
+        states = [(args[1], st2)]
+        for x in items:
+            nxt = []
+            for (acc, s_) in states:
+                r = _call_fnlike(interp, args[2], [acc, x], s_, frame, site, "fold")
+                if r is None:
+                    return None
+                nxt.extend(r)
+            states = nxt
+            if len(states) > 64:
+                return None
+        out.extend(states)
+    return out
+
+
 def m_vec_extend(interp, fn, args, st, site, frame):
     """vec.extend(<concrete iterator>) = vec.push(x) for every item, in order (logged as pushes)"""
     if len(args) != 2 or not (isinstance(args[1], Adt) and args[1].name.startswith("it:")):
@@ -1085,6 +1110,7 @@ BASE_MODELS = [
     (r"^std::iter::Iterator::take$|as std::iter::Iterator>::take$", m_iter_take),
     (r"^std::iter::Iterator::zip$|as std::iter::Iterator>::zip(::<.*>)?$", m_iter_zip),
     (r"^std::iter::Iterator::for_each$|as std::iter::Iterator>::for_each(::<.*>)?$", m_iter_for_each),
+    (r"^std::iter::Iterator::fold$|as std::iter::Iterator>::fold(::<.*>)?$", m_iter_fold),
     (r"^std::iter::Iterator::chain$|as std::iter::Iterator>::chain(::<.*>)?$", m_iter_chain),
     (r"^core::slice::<impl \[.*\]>::split_at(_mut)?$", m_split_at_concrete),
     (r"^core::slice::<impl \[.*\]>::len$", m_view_len),
